@@ -78,13 +78,13 @@ def matchedShape (H W : Nat) (maxH maxW : Option Nat) : Nat × Nat := (maxH.getD
 inductive Provider | labels | video
 deriving DecidableEq, Repr
 
-/-- `SingleInstancePredictor.make_pipeline` as coded: `preprocess = False` for `LabelsReader`,
-`True` for `VideoReader` -/
+/-- regression record (F-C02, BEFORE 569dda2): `SingleInstancePredictor.make_pipeline` set
+`preprocess = False` for `LabelsReader`, `True` for `VideoReader` -/
 def preprocessAsIs : Provider → Bool
   | .labels => false
   | .video => true
 
-/-- the repaired switch (`fixes/C02-labelsreader-preprocess.patch`): both providers preprocess -/
+/-- HEAD (since 569dda2): both providers preprocess -/
 def preprocessFixed : Provider → Bool := fun _ => true
 
 /-- `TopDownPredictor.make_pipeline`: `preprocess = False` for both providers (`CentroidCrop`
